@@ -535,6 +535,10 @@ pub fn replay_any(check_name: &str, case: &Value, known: &Known, mode: Mode) -> 
     if check_name == "probe" {
         return c01::replay_any(check_name, case, known);
     }
+    if check_name == "distinct-on-order" {
+        let c: crate::prop::c03::DistinctOnCase = serde_json::from_value(case.clone()).ok()?;
+        return Some(crate::prop::c03::check_distinct_on(&c, known));
+    }
     if check_name == "case-variant-columns" {
         let c: crate::prop::c09b::CaseVariant = serde_json::from_value(case.clone()).ok()?;
         return Some(crate::prop::c09b::check_variant(&c, known));
@@ -556,6 +560,7 @@ const HAZ_C05: &[&str] = &["dup_names", "dup_select", "shadow", "wild_helpers", 
 pub fn run_c07(ctx: &Ctx) -> i32 {
     ctx.run_replays(|c, case| replay_any(c, case, &ctx.known, Mode::C07));
     ctx.tape_search("all-dialects", ctx.n(8_000, 400_000), 450, |t| gen_case(t, None, false), |c| check(c, &ctx.known, Mode::C07, false));
+    ctx.tape_search("distinct-on-order", ctx.n(3_000, 30_000), 12, crate::prop::c03::gen_distinct_on_case, |c| crate::prop::c03::check_distinct_on(c, &ctx.known));
     for h in HAZ_C07 {
         ctx.tape_search(&format!("hazard/{h}"), ctx.n(300, 10_000), 450, |t| gen_case(t, Some(h), false), |c| {
             let mut o = check(c, &ctx.known, Mode::C07, true);
